@@ -97,6 +97,9 @@ def render_json(s, order=None, wrap_data=False, with_builtin=True, is_one_of_key
             fs = []
             for f in d["fields"]:
                 dep = f[2] if len(f) > 2 else None
+                if isinstance(dep, tuple):   # ("false", reason): isDeprecated false although a reason string is present
+                    fs.append({"name": f[0], "args": [], "type": typeref(f[1], s), "isDeprecated": False, "deprecationReason": dep[1]})
+                    continue
                 fs.append({"name": f[0], "args": [], "type": typeref(f[1], s), "isDeprecated": dep is not None, "deprecationReason": (dep or None) if dep is not None else None})
             t = {"kind": "OBJECT" if key == "objects" else "INTERFACE", "name": n, "fields": fs}
             if key == "objects":
@@ -242,4 +245,54 @@ def c07_order(tier):
         r["status"] = "fail"
         r["detail"] = "SDL lists Zed before Alpha, the JSON lists Alpha first: the two enums are emitted in opposite order (same items, permuted)"
         r["witness"] = {"case": {"schema": render_json(s, o2), "schema_ext": "json", "query": q, "options": {"mode": "cli"}}, "observed": r["detail"], "bounded": True, "how": "vx-replay (real crates)", "cases_tried": 1}
+    return [r]
+
+
+def c14_front(tier):
+    """C14.4 stand-in (schema front-ends, out of Verus's reach): which fields the schema marks deprecated, and with which reason, is read
+    identically from `@deprecated(reason:)` (SDL) and from isDeprecated / deprecationReason (JSON), on objects and interfaces, and the three
+    strategies then do what the property states."""
+    r = bounded("C14.4.bounded", "deprecation read from SDL directives and from introspection JSON (objects and interfaces) x allow / warn / deny",
+                "exhaustive over {SDL, JSON} x {object, interface} x {not deprecated, deprecated, deprecated with reason, JSON isDeprecated=false with a reason} x {allow, warn, deny}")
+    states = [("plain", None), ("dep", ""), ("dep+reason", "why"), ("false+reason", ("false", "why"))]
+    for fmt in ("graphql", "json"):
+        for parent in ("object", "interface"):
+            for (sn, dep) in states:
+                if fmt == "graphql" and isinstance(dep, tuple):
+                    continue
+                for strategy in ("allow", "warn", "deny"):
+                    fields = [("f", "Int", dep), ("g", "Int")]
+                    if parent == "object":
+                        sch = {"objects": {"Query": {"fields": [("o", "O")]}, "O": {"fields": fields}}, "query": "Query"}
+                        q = "query Q { o { f g } }"
+                    else:
+                        sch = {"interfaces": {"I": {"fields": fields}}, "objects": {"Query": {"fields": [("o", "I")]}, "A": {"fields": [("f", "Int"), ("g", "Int")], "implements": ["I"]}}, "query": "Query"}
+                        q = "query Q { o { __typename f g } }"
+                    text = render_sdl(sch) if fmt == "graphql" else render_json(sch)
+                    got = tokens_of(gen(text, fmt, q, {"deprecation": strategy}))
+                    r["cases"] += 1
+                    deprecated = dep is not None and not isinstance(dep, tuple)
+                    bad = None
+                    if got[0] != "ok":
+                        bad = "generation failed for a valid input: %s" % str(got[1])[:200]
+                    else:
+                        t = got[1]
+                        m = re.search(r"(#\[deprecated[^\]]*\])pubf:", t)
+                        has_f, has_attr = "pubf:" in t, bool(m)
+                        if "pubg:" not in t or re.search(r"#\[deprecated[^\]]*\]pubg:", t):
+                            bad = "the non-deprecated field g is marked or omitted"
+                        elif has_f != (not (deprecated and strategy == "deny")):
+                            bad = "field f is %s" % ("present" if has_f else "omitted")
+                        elif has_f and has_attr != (deprecated and strategy == "warn"):
+                            bad = "#[deprecated] is %s on f" % ("present" if has_attr else "absent")
+                        elif has_attr and dep == "why" and 'note="why"' not in m.group(1):
+                            bad = "the reason is not carried verbatim: %s" % m.group(1)
+                        elif has_attr and dep == "" and "note" in m.group(1):
+                            bad = "a note appears without a reason"
+                    if bad:
+                        r["status"] = "fail"
+                        r["detail"] = "%s field, schema as %s, state %s, strategy %s: %s" % (parent, "SDL" if fmt == "graphql" else "JSON", sn, strategy, bad)
+                        r["witness"] = {"case": {"schema": text, "schema_ext": fmt, "query": q, "options": {"mode": "cli", "deprecation": strategy}}, "observed": r["detail"],
+                                        "bounded": True, "how": "vx-replay (real crates)", "cases_tried": r["cases"]}
+                        return [r]
     return [r]
